@@ -10,11 +10,11 @@ from torchtree.core.model import CallableModel
 from torchtree.core.utils import process_object, register_class
 from torchtree.distributions.distributions import DistributionModel
 from torchtree.typing import ID
-from torchtree.variational.kl import _log_q
+from torchtree.variational.kl import VariationalObjective, _log_q
 
 
 @register_class
-class VR(CallableModel):
+class VR(VariationalObjective):
     r"""Class representing the variational Renyi bound.
 
     VR extends traditional variational inference to Rényi’s
